@@ -1145,8 +1145,10 @@ class Explorer(BaseExplorer):
                 self.frontier_hit = True
                 raise Abort()
             if i >= self.decision_limit:
-                self.inconclusive.append("decision-limit")
-                raise Abort()
+                # The path does not end symbolically (e.g. a loop whose trip count depends on symbolic data).  Its current model
+                # is still a concrete input: try it on plain values; a reproduced violation is reported, otherwise inconclusive.
+                vals = self.values_of(self.model)
+                raise _Candidate("decision-limit", vals)
             v = self.model.eval(cond, model_completion=True)
             d = z3.is_true(v)
         self.cache[key] = (d, cond)
@@ -1335,11 +1337,17 @@ class Explorer(BaseExplorer):
             except _Candidate as c:
                 rep = self.reproduce(c.values, c.label)
                 if rep is not None:
-                    self.violation = Violation(c.label, rep["values"], rep.get("detail"))
+                    lab = c.label
+                    if lab == "decision-limit":
+                        lab = (rep.get("detail") or {}).get("labels", ["decision-limit"])[0]
+                    self.violation = Violation(lab, rep["values"], rep.get("detail"))
                     return "violation", [(p, nt) for (p, _c, _m, nt) in stack]
-                self.stats["unreproduced"] += 1
-                self.unreproduced.append({"label": c.label, "values": jsonable(c.values)})
-                self.inconclusive.append("unreproduced:" + c.label)
+                if c.label == "decision-limit":
+                    self.inconclusive.append("decision-limit")
+                else:
+                    self.stats["unreproduced"] += 1
+                    self.unreproduced.append({"label": c.label, "values": jsonable(c.values)})
+                    self.inconclusive.append("unreproduced:" + c.label)
             except HarnessError:
                 raise
             except Exception as e:  # noqa: BLE001 - escaped the harness: real defect or encoding error
